@@ -824,17 +824,82 @@ class CookTaskList(FragmentTask):
                        compare(ex, "Eq", calls[k].get("newbfpath"), "out/Level_0/" + f.split("/")[-1]), "P", note=str(calls[k].get("newbfpath")))
 
 
+class CookLevel(FragmentTask):
+    """The body of the level loop of Chef.cook as a whole, from its first statement to the loop that stores the knives' results
+    (real code; skeleton: 3 boxes over 2 interleaved files, symbolic distinct read offsets; serial and pool mode).  The knife is
+    its contract: it reads ITS binary file front to back and returns one offset / minima row / maxima row per FAB in DISK order.
+    Whatever bookkeeping lies in between, afterwards box b holds the results of the FAB at b's rank (by read offset) among
+    the boxes of b's file - the level header then lists every box with the offset and extrema of its own data."""
+    prop = "C11"
+    reach = "S"
+    qual = CF + "Chef.cook"
+    first = staticmethod(FragmentTask.assigns("level_files"))
+    last = staticmethod(_src("for file_idxs, bfile_result in zip(box_index_map, output)"))
+    inline = ("amr_kitchen.plotfile_cooker.PlotfileCooker.map_bfile_offsets",)
+
+    def __init__(self, serial):
+        self.serial = serial
+        self.name = f"cook.level-body[{'serial' if serial else 'pool'}]"
+
+    def setup(self, ex):
+        ctx = ex.ctx
+        I, R = z3.IntSort(), z3.RealSort()
+        off = [z3.Int(f"off{i}") for i in range(3)]
+        ctx.assume(z3.And(z3.Distinct(*off), *[x >= 0 for x in off]))
+        NEWOFF = z3.Function("NEWOFF", I, I, I)
+        MN, MX = z3.Function("KMIN", I, I, I, R), z3.Function("KMAX", I, I, I, R)
+        files = sorted(set(CFILES))
+        nper = {f: sum(1 for x in CFILES if x == f) for f in files}
+        called = []
+
+        def knife(ex_, args, kw):
+            call = args[0]
+            f = str(call.get("bfpath"))
+            fi = files.index(f)
+            called.append(f)
+            n = nper[f]
+            return (Vec([NEWOFF(fi, t) for t in range(n)], "array"),
+                    NDArray([n, 2], lambda ix, fi=fi: MN(fi, to_z3(ix[0]), to_z3(ix[1])), "f8"),
+                    NDArray([n, 2], lambda ix, fi=fi: MX(fi, to_z3(ix[0]), to_z3(ix[1])), "f8"))
+        knife._pyvc_builtin = True
+        self_ = Record(CF + "Chef", outdir="out", cell_paths=["Level_0"], recipe=Opaque("recipe", "obj"), sp_indexes=[], rx_indexes=[],
+                       sp_start=None, sp_end=None, fields=Opaque("fields", "obj"), id_temp=None, ids_keep=Opaque("ids_keep", "obj"), idx_O2=None,
+                       cells=[{"files": list(CFILES), "offsets": list(off)}], boxes=[[None, None, None]], outfields=["kept", "new"],
+                       serial=self.serial, knife=knife, limit_level=0)
+        return {"frame": {"self": self_, "lv": 0}, "off": off, "NEWOFF": NEWOFF, "MN": MN, "MX": MX, "files": files, "called": called}
+
+    def post(self, ex, inp, out):
+        ctx = ex.ctx
+        ctx.oblige("raises-nothing", out.kind == "ret", "P", note=str(out.exc) if out.kind != "ret" else "")
+        if out.kind != "ret":
+            return
+        from pyvc.ops import as_ndarray
+        v, off, files = out.value, inp["off"], inp["files"]
+        ctx.oblige("post.every-binary-file-cooked-exactly-once", sorted(inp["called"]) == files, "P", note=str(inp["called"]))
+        ao, am, ax = as_ndarray(v["mapped_offsets"]), as_ndarray(v["mapped_mins"]), as_ndarray(v["mapped_maxs"])
+        for b in range(3):
+            fi = files.index(CFILES[b])
+            rank = z3.Sum([z3.If(off[c] < off[b], 1, 0) for c in range(3) if c != b and CFILES[c] == CFILES[b]] + [z3.IntVal(0)])
+            ctx.oblige(f"post.box-{b}-gets-the-offset-of-its-own-fab", to_z3(ao.elem((b,))) == inp["NEWOFF"](fi, rank), "P")
+            for k in range(2):
+                ctx.oblige(f"post.box-{b}-gets-the-minima-of-its-own-fab", to_z3(am.elem((b, k))) == inp["MN"](fi, rank, k), "P")
+                ctx.oblige(f"post.box-{b}-gets-the-maxima-of-its-own-fab", to_z3(ax.elem((b, k))) == inp["MX"](fi, rank, k), "P")
+
+
 class CookScatter(FragmentTask):
     """The loop of Chef.cook storing what the knives returned: the t-th offset / minima / maxima of the task of file f go to box
     box_index_map[f][t]."""
     prop = "C11"
     reach = "S"
     qual = CF + "Chef.cook"
-    first = staticmethod(_src("for file_idxs, bfile_result in zip(box_index_map, output)"))
-    last = first
+    # from the statement that runs the knives (serially or through the pool) to the loop that stores their results: the knife
+    # is its interface (task f returns the f-th result), the collection order is Python's / the pool's contract
+    first = staticmethod(_src("if self.serial"))
+    last = staticmethod(_src("for file_idxs, bfile_result in zip(box_index_map, output)"))
 
-    def __init__(self):
-        self.name = "cook.results-stored-per-box"
+    def __init__(self, serial=False):
+        self.serial = serial
+        self.name = "cook.results-stored-per-box" + ("[serial]" if serial else "")
 
     def setup(self, ex):
         ctx = ex.ctx
@@ -855,11 +920,11 @@ class CookScatter(FragmentTask):
                 return e
             return NDArray([len(rows), 2], el, "f8")
         output = [(Vec(offs[f], "array"), arr2(mins[f]), arr2(maxs[f])) for f in range(2)]
-        P = z3.Function("PRIOR", I, I, R)
-        frame = {"output": output, "box_index_map": [Vec([a, b], "array"), Vec([1], "array")],
-                 "mapped_offsets": Vec([z3.Int("j0"), z3.Int("j1"), z3.Int("j2")], "array"),
-                 "mapped_mins": NDArray([3, 2], lambda ix: P(to_z3(ix[0]), to_z3(ix[1])), "f8"),
-                 "mapped_maxs": NDArray([3, 2], lambda ix: P(to_z3(ix[0]) + 10, to_z3(ix[1])), "f8")}
+        def knife(ex_, args, kw):
+            return output[args[0]]
+        knife._pyvc_builtin = True
+        self_ = Record(CF + "Chef", knife=knife, serial=self.serial, boxes=[[None, None, None]], outfields=["kept", "new"])
+        frame = {"mp_calls": [0, 1], "self": self_, "lv": 0, "box_index_map": [Vec([a, b], "array"), Vec([1], "array")]}
         return {"frame": frame, "ids": [[a, b], [1]], "offs": offs, "mins": mins, "maxs": maxs}
 
     def post(self, ex, inp, out):
@@ -883,7 +948,7 @@ class CookScatter(FragmentTask):
 
 
 def cook_tasks(tier):
-    return [CookTask(CFILES[0]), CookTask(CFILES[1]), CookTaskList(), CookScatter()]
+    return [CookTask(CFILES[0]), CookTask(CFILES[1]), CookTaskList(), CookScatter(), CookScatter(serial=True), CookLevel(True), CookLevel(False)]
 
 
 def cook_canaries():
